@@ -32,7 +32,7 @@ func init() {
 		if u.mod == "Table" {
 			u.funcs = append(u.funcs,
 				"textCell.isSep", "numberCell.isSep", "percentCell.isSep", "SeparatorCell.isSep", "emptyCell.isSep", "createSep",
-				"writeString", "writeStrings", "writeSpace", "TextRenderer.minLengthCell", "TextRenderer.renderCell", "TextRenderer.Render",
+				"padLeft", "writeString", "writeStrings", "writeSpace", "TextRenderer.minLengthCell", "TextRenderer.renderCell", "TextRenderer.Render",
 				"CSVRenderer.renderCell", "CSVRenderer.Render", "New",
 				"Table.Width", "Row.addCell", "Row.AddEmpty", "Row.AddText", "Row.AddDecimal", "Row.AddPercent", "Row.AddIndented",
 				"Table.AddRow", "Table.AddSeparatorRow", "Table.AddEmptyRow", "Row.FillEmpty")
